@@ -14,6 +14,8 @@ def replay(obj):
     return _replay_e1(obj)
   if eng:
     mod = importlib.import_module('vf.%s' % eng)
+    if eng == 'unit' and obj.get('setup') == 'prewarm':
+      obj = dict(obj, setup=None)
     return mod.replay(obj)
   print('unknown replay engine %r' % (eng,))
   return 3
